@@ -497,10 +497,10 @@ def main(ctx):
         res.note([c["meta"]["name"], c["meta"]["std_spki"]], True, cls=["keytype:" + c["meta"]["kind"]], n=len(c["paths"]))
     res.sample({"key": cases[0]["meta"]["name"], "paths": [p["how"] for p in cases[0]["paths"]],
                 "ids": [o_.get("ok", {}).get("keyid", o_.get("err")) for o_ in obs[0].get("paths", [])]})
-    table_checks(ctx.bin, res, ctx.seed, 300 if not ctx.thorough else 6000)
-    alias_e2e(ctx.bin, res, ctx.seed, 200 if not ctx.thorough else 4000)
-    attribution_block(ctx.bin, res, ctx.seed, 240 if not ctx.thorough else 4000)
-    in_memory_table(ctx.bin, res, ctx.seed, 60 if not ctx.thorough else 1000)
+    table_checks(ctx.bin, res, ctx.seed, 300 if not ctx.thorough else 20000)
+    alias_e2e(ctx.bin, res, ctx.seed, 200 if not ctx.thorough else 12000)
+    attribution_block(ctx.bin, res, ctx.seed, 240 if not ctx.thorough else 12000)
+    in_memory_table(ctx.bin, res, ctx.seed, 60 if not ctx.thorough else 3000)
     return common.finish(
         PROP, ctx.tier, ctx.seed, res, t0=ctx.t0,
         rule="pool keys (10 ed25519 incl. 2 made by OpenSSL, 3 P-256, 4 RSA 2048/3072/4096; thorough: +120 fresh OpenSSL keys) x "
